@@ -7,96 +7,60 @@ open S3V.StoreSpec
 
 /-! ## ranges -/
 
-/-- `Range::check` against RFC 9110 (`rfcInterval`), for ranges the backend can then seek to -/
-theorem rangeCheck_spec (r : Range) (len : Nat) (h : ∀ n, r = .suffix n → n ≤ len) :
-    (rangeCheck r len = none ∧
-      (DtoSpec.rfcInterval (toByteRange r) len = none ∨
-        ∃ st en, DtoSpec.rfcInterval (toByteRange r) len = some (st, en) ∧ st ≥ en)) ∨
-    (∃ st en, rangeCheck r len = some (st, en) ∧ DtoSpec.rfcInterval (toByteRange r) len = some (st, en) ∧
-      st < en ∧ (∀ f l, r = .int f l → st = f) ∧ (∀ n, r = .suffix n → st = len - n)) := by
+/-- `Range::check` is the RFC 9110 interval (`rfcInterval`), for every range and every length -/
+theorem rangeCheck_eq (r : Range) (len : Nat) : rangeCheck r len = DtoSpec.rfcInterval (toByteRange r) len := by
   cases r with
   | int first last =>
     cases last with
     | none =>
       by_cases hf : first ≥ len
-      · left
-        have : ¬ first < len := by omega
+      · have : ¬ first < len := by omega
         simp [rangeCheck, hf, DtoSpec.rfcInterval, toByteRange, this]
-      · right
-        have hlt : first < len := by omega
-        refine ⟨first, len, ?_, ?_, hlt, ?_, ?_⟩
-        · simp [rangeCheck, hf]
-        · simp [DtoSpec.rfcInterval, toByteRange, hlt]
-        · intro f l e; cases e; rfl
-        · intro n e; cases e
+      · have hlt : first < len := by omega
+        simp [rangeCheck, hf, DtoSpec.rfcInterval, toByteRange, hlt]
     | some l =>
       by_cases hf : first ≥ len
-      · left
-        have : ¬ first < len := by omega
-        refine ⟨by simp [rangeCheck, hf], ?_⟩
-        left
-        simp only [DtoSpec.rfcInterval, toByteRange, this, if_false]
+      · have : ¬ first < len := by omega
+        simp only [rangeCheck, hf, if_true, DtoSpec.rfcInterval, toByteRange, this, if_false]
         split <;> rfl
       · have hlt : first < len := by omega
         by_cases hl : l < first
-        · left
-          refine ⟨?_, ?_⟩
-          · have : first > min l (len - 1) := by
-              have := Nat.min_le_left l (len - 1); omega
-            simp [rangeCheck, hf, this]
-          · left; simp [DtoSpec.rfcInterval, toByteRange, hl]
-        · right
-          have hmin : ¬ first > min l (len - 1) := by
+        · have : first > min l (len - 1) := by
+            have := Nat.min_le_left l (len - 1); omega
+          simp [rangeCheck, hf, this, DtoSpec.rfcInterval, toByteRange, hl]
+        · have hmin : ¬ first > min l (len - 1) := by
             rw [Nat.not_lt]
             apply Nat.le_min.mpr; omega
-          refine ⟨first, min l (len - 1) + 1, ?_, ?_, ?_, ?_, ?_⟩
-          · simp only [rangeCheck, hf, if_false, hmin]
-          · simp only [DtoSpec.rfcInterval, toByteRange, hl, if_false, hlt, if_true]
-            by_cases hge : l ≥ len
-            · have : min l (len - 1) = len - 1 := Nat.min_eq_right (by omega)
-              simp only [hge, if_true, this]
-              congr 2; omega
-            · have : min l (len - 1) = l := Nat.min_eq_left (by omega)
-              simp only [hge, if_false, this]
-          · have : first ≤ min l (len - 1) := by omega
-            omega
-          · intro f l' e; cases e; rfl
-          · intro n e; cases e
+          simp only [rangeCheck, hf, if_false, hmin, DtoSpec.rfcInterval, toByteRange, hl, hlt, if_true]
+          by_cases hge : l ≥ len
+          · have : min l (len - 1) = len - 1 := Nat.min_eq_right (by omega)
+            simp only [hge, if_true, this]
+            congr 2; omega
+          · have : min l (len - 1) = l := Nat.min_eq_left (by omega)
+            simp only [hge, if_false, this]
   | suffix n =>
-    have hn := h n rfl
     by_cases h0 : n = 0
-    · left
-      subst h0
+    · subst h0
       simp [rangeCheck, DtoSpec.rfcInterval, toByteRange]
-    · right
-      have hmin : min n len = n := Nat.min_eq_left hn
-      refine ⟨len - n, len, ?_, ?_, by omega, ?_, ?_⟩
-      · simp [rangeCheck, h0, hmin]
-      · have : ¬ n > len := by omega
-        simp [DtoSpec.rfcInterval, toByteRange, h0, this]
-      · intro f l e; cases e
-      · intro n' e; cases e; rfl
+    · simp only [rangeCheck, h0, if_false, DtoSpec.rfcInterval, toByteRange]
+      by_cases hn : n > len
+      · have : min n len = len := Nat.min_eq_right (by omega)
+        simp [hn, this]
+      · have : min n len = n := Nat.min_eq_left (by omega)
+        simp [hn, this]
 
-/-- what the backend may be asked to read at a node: a file (with a suffix range no longer than it), or nothing -/
-def ReadableNode (range : Option Range) : Option Node → Prop
-  | none => True
+/-- what the backend may be asked to read at a node: a file, or nothing (a directory left behind is excluded) -/
+def ReadableNode : Option Node → Prop
   | some .dir => False
-  | some (.file c) =>
-    match range with
-    | some (.suffix n) => n ≤ c.length ∧ n ≤ i64Max
-    | _ => True
+  | _ => True
 
-instance (range : Option Range) (n : Option Node) : Decidable (ReadableNode range n) := by
+instance (n : Option Node) : Decidable (ReadableNode n) := by
   unfold ReadableNode
-  split
-  · infer_instance
-  · infer_instance
-  · split <;> infer_instance
+  split <;> infer_instance
 
-/-- `get_object` may be compared with the store: names agree; for admissible names the bucket exists
-    [else fs:missing-bucket-reported-as-missing-key], the path is not a leftover directory [fs:leftover-directory],
-    a suffix range is not longer than the object [fs:suffix-range-longer-than-object, fs:suffix-range-huge-panics] -/
-def GetOk (s : State) (b k : Bytes) (range : Option Range) : Prop :=
+/-- `get_object` may be compared with the store, for every range: names agree; for admissible names the bucket exists
+    [else fs:missing-bucket-reported-as-missing-key] and the path is not a leftover directory [fs:leftover-directory] -/
+def GetOk (s : State) (b k : Bytes) : Prop :=
   NameOk b ∧ CanonKey k ∧ sideTooLong b k false = false ∧
   (bucketOk b = true →
     match keyPath k with
@@ -104,7 +68,7 @@ def GetOk (s : State) (b k : Bytes) (range : Option Range) : Prop :=
     | some p =>
       match s.tree b with
       | none => False
-      | some t => ReadableNode range (t.node p))
+      | some t => ReadableNode (t.node p))
 
 theorem loadMeta_eq {s : State} (hi : Inv s) {b k : Bytes} (hshort : sideTooLong b k false = false) :
     s.loadMeta b k = some (absMeta s b k) := by
@@ -118,7 +82,7 @@ theorem loadMeta_eq {s : State} (hi : Inv s) {b k : Bytes} (hshort : sideTooLong
     | corrupt => exact absurd rfl (hi.metaOk _ (alLookup_mem h))
 
 theorem get_refines (H : Hashes) (dl : Nat) {s : State} (hi : Inv s) {b k : Bytes} {range : Option Range}
-    (hg : GetOk s b k range) :
+    (hg : GetOk s b k) :
     (step H dl s (.getObject b k range)).2 = (StoreSpec.step H (abs s) (.getObject b k range)).2 ∧
     abs (step H dl s (.getObject b k range)).1 = (StoreSpec.step H (abs s) (.getObject b k range)).1 ∧
     Inv (step H dl s (.getObject b k range)).1 := by
@@ -159,31 +123,14 @@ theorem get_refines (H : Hashes) (dl : Nat) {s : State} (hi : Inv s) {b k : Byte
               simp [step, StoreSpec.step, objPath, hbd, hkp, hbo, hko, habs, hnode, hn, hlook, hi, hload, hshort,
                 readObj]
             | some r =>
-              have hsuf : ∀ n, r = .suffix n → n ≤ c.length := by
-                intro n e; subst e
-                simp only [ReadableNode] at hbucket
-                exact hbucket.1
-              rcases rangeCheck_spec r c.length hsuf with ⟨h1, h2⟩ | ⟨st, en, h1, h2, h3, h4, h5⟩
-              · rcases h2 with h2 | ⟨st, en, h2, h3⟩
-                · simp [step, StoreSpec.step, objPath, hbd, hkp, hbo, hko, habs, hnode, hn, hlook, hi, readObj,
-                    h1, h2]
-                · simp [step, StoreSpec.step, objPath, hbd, hkp, hbo, hko, habs, hnode, hn, hlook, hi, readObj,
-                    h1, h2, h3]
-              · have hge : ¬ st ≥ en := by omega
-                cases r with
-                | int f l =>
-                  have := h4 f l rfl
-                  subst this
-                  simp [step, StoreSpec.step, objPath, hbd, hkp, hbo, hko, habs, hnode, hn, hlook, hi, readObj,
-                    h1, h2, hge, hload, hshort, slice]
-                | suffix n =>
-                  have hst := h5 n rfl
-                  subst hst
-                  simp only [ReadableNode] at hbucket
-                  have hn1 : ¬ n > i64Max := by omega
-                  have hn2 : ¬ n > c.length := by omega
-                  simp [step, StoreSpec.step, objPath, hbd, hkp, hbo, hko, habs, hnode, hn, hlook, hi, readObj,
-                    h1, h2, hge, hload, hshort, slice, hn1, hn2]
+              cases hrc : DtoSpec.rfcInterval (toByteRange r) c.length with
+              | none =>
+                simp [step, StoreSpec.step, objPath, hbd, hkp, hbo, hko, habs, hnode, hn, hlook, hi, readObj,
+                  rangeCheck_eq, hrc]
+              | some se =>
+                obtain ⟨st, en⟩ := se
+                simp [step, StoreSpec.step, objPath, hbd, hkp, hbo, hko, habs, hnode, hn, hlook, hi, readObj,
+                  rangeCheck_eq, hrc, hload, hshort, slice]
   · simp [step, StoreSpec.step, objPath, hbd, hbo, hi]
 
 end S3V.FsStore
